@@ -638,6 +638,64 @@ func checkDistEntry(c *core.Ctx, p *packages.Package, d *declIndex, e distEntry)
 							}
 						}
 					}
+					// SetParameters(theta') must build the same object as the constructor called with theta' (all cached constants
+					// included): decided when every element of the parameter vector is one of the constructor's parameters
+					if setter == "SetParameters" {
+						toElem := map[*sym.Atom]*sym.Term{}
+						constElems := map[*sym.Atom]*sym.Term{}
+						pure := len(useElems) > 0
+						for k, v := range useElems {
+							n, err := strconv.Atoi(k)
+							if err != nil {
+								pure = false
+								continue
+							}
+							isParam := false
+							for _, pn := range e.params {
+								if v.String() == pn {
+									toElem[sym.SymAtom(pn)] = sym.Fn("elem", sym.Sym("parameters"), sym.Int(int64(n)))
+									isParam = true
+								}
+							}
+							if !isParam {
+								if _, isConst := v.IsConst(); !isConst {
+									pure = false
+								} else {
+									// an element that encodes a flag of this constructor variant (Beta: log-scale 0/1)
+									for _, a := range sym.Fn("elem", sym.Sym("parameters"), sym.Int(int64(n))).Atoms() {
+										if a.Kind == "elem" {
+											constElems[a] = v
+										}
+									}
+								}
+							}
+						}
+						if pure && len(toElem) > 0 {
+							want := vn.SubstValue(vn.DeepCopy(ok.obj, nil), toElem, nil).(*vn.StructVal)
+							for _, mp := range mps {
+								if _, isErr := mp.ret.(*vn.ErrVal); isErr || mp.recv == nil || mp.panics || !feasibleAfter(mp.condvs, constElems, catoms) {
+									continue
+								}
+								bad := ""
+								for _, f := range want.FieldNames() {
+									if d1, v1 := boolField(want.Fields[f], nil, catoms); d1 {
+										if d2, v2 := boolField(mp.recv.Fields[f], nil, condAtoms(mp.condvs)); d2 && v1 == v2 {
+											continue
+										}
+										if _, isB := want.Fields[f].(*vn.BoolVal); isB {
+											continue // flags decoded from the vector: covered by the round-trip rule
+										}
+									}
+									if !sameValue(want.Fields[f], mp.recv.Fields[f]) {
+										bad = fmt.Sprintf("after SetParameters(p) the field %s is %s, the constructor called with the same parameters gives %s", f, showValue(mp.recv.Fields[f]), showValue(want.Fields[f]))
+										break
+									}
+								}
+								c.Check(bad == "", "C14.R4", cons, "SetParameters builds the object the constructor builds ["+shortConds(mp.conds)+"]"+vtag, sp.Pos(),
+									bad+": a cached constant is stale after the parameters changed, so the density no longer integrates to one")
+							}
+						}
+					}
 					nOK := 0
 					for _, mp := range mps {
 						if _, isErr := mp.ret.(*vn.ErrVal); isErr || mp.recv == nil || mp.panics || !feasible(mp.condvs, catoms) || !feasibleAfter(mp.condvs, sub, catoms) {
